@@ -21,6 +21,7 @@ import (
 	"time"
 
 	"github.com/ARM-software/golang-utils/utils/subprocess"
+	commandUtils "github.com/ARM-software/golang-utils/utils/subprocess/command"
 
 	"verifharness/internal/hk"
 )
@@ -108,6 +109,7 @@ type scenario struct {
 	RootExits bool   `json:"rootExits"`
 	StartMode string `json:"startMode"`
 	StopMode  string `json:"stopMode"`
+	Launcher  string `json:"launcher"` // direct | translated (through a command translator: env, which execs the command)
 	Desc      []int  `json:"desc"`
 }
 
@@ -116,6 +118,7 @@ type treeEvent struct {
 	ID          int    `json:"id"`
 	StartMode   string `json:"startMode"`
 	StopMode    string `json:"stopMode"`
+	Launcher    string `json:"launcher"`
 	RootExits   bool   `json:"rootExits"`
 	Spawned     []int  `json:"spawned"`   // descendants that recorded a pid
 	InGroup     []int  `json:"inGroup"`   // of those, the ones measured to be in the direct child's process group
@@ -172,7 +175,7 @@ const boundMs = 12000
 
 func runTree(id int, sc scenario, scratch string) (treeEvent, error) {
 	b, _ := json.Marshal(sc)
-	ev := treeEvent{Op: "Tree", ID: id, StartMode: sc.StartMode, StopMode: sc.StopMode, RootExits: sc.RootExits, BoundMs: boundMs,
+	ev := treeEvent{Op: "Tree", ID: id, StartMode: sc.StartMode, StopMode: sc.StopMode, Launcher: sc.Launcher, RootExits: sc.RootExits, BoundMs: boundMs,
 		Spawned: []int{}, InGroup: []int{}, Survivors: []int{}, SurvivorsIn: []int{}, Scenario: string(b)}
 	dir, err := os.MkdirTemp(scratch, "c05-")
 	if err != nil {
@@ -208,7 +211,13 @@ func runTree(id int, sc scenario, scratch string) (treeEvent, error) {
 	self, _ := os.Executable()
 	ctx, cancel := context.WithCancel(context.Background())
 	defer cancel()
-	p, err := subprocess.New(ctx, quiet{}, "", "", "", self, "c05", "node", "--in", specFile)
+	var p *subprocess.Subprocess
+	if sc.Launcher == "translated" {
+		p = new(subprocess.Subprocess)
+		err = p.SetupAs(ctx, quiet{}, "", "", "", commandUtils.NewCommandAsDifferentUser("env"), self, "c05", "node", "--in", specFile)
+	} else {
+		p, err = subprocess.New(ctx, quiet{}, "", "", "", self, "c05", "node", "--in", specFile)
+	}
 	if err != nil {
 		return ev, err
 	}
